@@ -27,10 +27,16 @@ import (
 	"time"
 )
 
-const (
-	repoDir = "/repo"
-	goBin   = "/opt/veriftools/go1.26.8/bin"
-)
+const goBin = "/opt/veriftools/go1.26.8/bin"
+
+// repoDir is the seq-db working tree the checks rebuild from: /repo, unless VERIF_REPO names a
+// snapshot (background runs that must not see edits made to /repo while they work).
+var repoDir = func() string {
+	if d := os.Getenv("VERIF_REPO"); d != "" {
+		return d
+	}
+	return "/repo"
+}()
 
 // verifDir is the directory the framework lives in: the parent of bin/ next to this executable
 // (so that a snapshot of /verif works on its own files).
@@ -235,7 +241,21 @@ func buildEngine(engine, variant string) (*build, error) {
 		extra, _ := os.ReadFile(filepath.Join(verifDir, "harness", "go.sum.extra"))
 		os.WriteFile(filepath.Join(verifDir, "harness", "go.sum"), append(sum, extra...), 0o644)
 	}
-	cmd := exec.Command(filepath.Join(goBin, "go"), "test", "-c", "-overlay", filepath.Join(scratch, "overlay.json"), "-vet=off", "-o", b.bin, "./"+engine)
+	args := []string{"test", "-c", "-overlay", filepath.Join(scratch, "overlay.json"), "-vet=off", "-o", b.bin}
+	if repoDir != "/repo" {
+		// the harness module replaces seq-db by /repo; a snapshot gets its own go.mod/go.sum
+		mod, err := os.ReadFile(filepath.Join(verifDir, "harness", "go.mod"))
+		if err != nil {
+			b.cleanup()
+			return nil, err
+		}
+		mod = bytes.Replace(mod, []byte("=> /repo"), []byte("=> "+repoDir), 1)
+		sum, _ := os.ReadFile(filepath.Join(verifDir, "harness", "go.sum"))
+		os.WriteFile(filepath.Join(scratch, "go.mod"), mod, 0o644)
+		os.WriteFile(filepath.Join(scratch, "go.sum"), sum, 0o644)
+		args = append(args, "-modfile="+filepath.Join(scratch, "go.mod"))
+	}
+	cmd := exec.Command(filepath.Join(goBin, "go"), append(args, "./"+engine)...)
 	cmd.Dir = filepath.Join(verifDir, "harness")
 	cmd.Env = goEnv()
 	if out, err := cmd.CombinedOutput(); err != nil {
